@@ -257,9 +257,12 @@ type world struct {
 	hist   map[string][]string        // "user/col" -> http lines of accepted writes (create first)
 	taint  map[string]bool            // "user/col" -> holds non-finite / huge vectors: 5xx not judged
 	broken map[string]string          // "user/col" -> cannot be read back any more (reported once); deleted at the next iteration
-	cols   map[string]map[string]*colInfo
-	digest string
-	fails  *[]vh.OracleFailure
+	// "user/col" -> the first write request of this server's life whose batch failed INSIDE a shard (a failed range
+	// / failed point in a 2xx answer, a 5xx), as "<http line>\t<what the answer said>" (see hang.go)
+	rejected map[string]string
+	cols     map[string]map[string]*colInfo
+	digest   string
+	fails    *[]vh.OracleFailure
 }
 
 func canonJSON(v any) string {
@@ -765,6 +768,7 @@ func doReplay(path string) {
 		os.Exit(2)
 	}
 	defer c.kill()
+	deadSaid := false
 	for _, l := range strings.Split(string(data), "\n") {
 		l = strings.TrimSpace(l)
 		if l == "" || strings.HasPrefix(l, "#") {
@@ -776,13 +780,24 @@ func doReplay(path string) {
 			continue
 		}
 		if !c.alive() {
-			fmt.Println("status=none (the server process is dead)")
+			if !deadSaid {
+				deadSaid = true
+				fmt.Printf("status=none (the server process is dead: %s)\n", lastLines(c.log.String(), 3))
+			} else {
+				fmt.Println("status=none (the server process is dead)")
+			}
 			continue
 		}
 		resp := c.do(r)
 		time.Sleep(30 * time.Millisecond)
 		if resp.err != nil && !c.alive() {
 			fmt.Printf("status=none SERVER PROCESS DIED: %s\n", lastLines(c.log.String(), 3))
+			continue
+		}
+		if resp.err != nil && isTimeout(resp.err) {
+			// a hang: the goroutines of the server (SIGQUIT), as in the run that reported it
+			gs := parseDump(c.quitDump(20 * time.Second))
+			fmt.Printf("status=none NO ANSWER within %v, the process lives; cache-lock-leak shape: %v; goroutines of the repository's code that wait for another goroutine:\n%s", httpClient.Timeout, cacheLockLeak(gs), hangDigest(gs))
 			continue
 		}
 		body := string(resp.body)
@@ -852,6 +867,13 @@ type runner struct {
 	// a time-out was confirmed by a ping + retry (see judge)
 	hangConfirmed bool
 	distinct      map[string]struct{}
+	outDir        string // run directory (goroutine dumps of hung servers go there)
+	hangs         int
+	followUps     int
+	// the slowest exchange of the run (evidence: a request that needs seconds on a quiet machine is worth a look)
+	slowest     time.Duration
+	slowestReq  string
+	slowestLine string
 }
 
 func (rn *runner) restart() {
@@ -873,6 +895,7 @@ func (rn *runner) restart() {
 	rn.w.hist = map[string][]string{}
 	rn.w.taint = map[string]bool{}
 	rn.w.broken = map[string]string{}
+	rn.w.rejected = map[string]string{}
 	rn.w.cols = map[string]map[string]*colInfo{}
 	rn.w.digest = ""
 	rn.setup = nil
@@ -905,6 +928,7 @@ func (rn *runner) ensureBase(cs *colSpec) {
 			if !isBase(id) {
 				rn.w.c.do(request{cs.user, cs.plan, "DELETE", "/v2/collections/" + id, "", nil})
 				delete(rn.w.hist, cs.user+"/"+id)
+				delete(rn.w.rejected, cs.user+"/"+id)
 				delete(rn.w.known, cs.user+"/"+id)
 				delete(rn.specs, cs.user+"/"+id)
 			}
@@ -988,7 +1012,7 @@ func run(seed uint64, n int, dir string, deepmp int) {
 	// vh.NewRng(k) and vh.NewRng(k+1) are the same splitmix stream one step apart, and a generator with
 	// data dependent consumption re-synchronises on it within a few calls: hash the seed first
 	rn := &runner{g: &gen{r: vh.NewRng(vh.NewRng(seed ^ 0xC18C18C18).U64())}, o: o, root: root, specs: map[string]*colSpec{}, replays: bufio.NewWriter(rf),
-		statusCt: map[string]int{}, mutCt: map[string]int{}, distinct: map[string]struct{}{}, baseFailed: map[string]bool{}}
+		statusCt: map[string]int{}, mutCt: map[string]int{}, distinct: map[string]struct{}{}, baseFailed: map[string]bool{}, outDir: dir}
 	rn.w = &world{fails: &fails}
 	rn.w.users = []struct{ user, plan string }{{"alice", "BASIC"}, {"bob", "TINY"}, {"carol", "BIG"}, {"dave", "BASIC"}}
 	rn.restart()
@@ -1016,6 +1040,9 @@ func run(seed uint64, n int, dir string, deepmp int) {
 		rn.deepMsgpack(deepmp)
 	}
 	rn.replays.Flush()
+	if rn.slowestLine != "" {
+		os.WriteFile(filepath.Join(dir, "slowest.txt"), []byte(strings.Join(append(append([]string{}, rn.setup...), rn.slowestLine), "\n")+"\n"), 0o644)
+	}
 	for _, f := range fails {
 		o.Fail(f.Signature, f.What, f.Replay)
 	}
@@ -1030,13 +1057,14 @@ func run(seed uint64, n int, dir string, deepmp int) {
 		dist[k] = v
 	}
 	o.Close(map[string]any{
-		"rule":                "TESTING (fuzzing), not proof: distinct_nontrivial = number of distinct (endpoint, content type, mutation kind, mutated field path, HTTP status) tuples among the requests that reached a handler (status other than the header / routing refusals); evaluations = HTTP requests judged by the oracle O1-O5 plus pure op lines compared with the model",
+		"rule":                "TESTING (fuzzing), not proof: distinct_nontrivial = number of distinct (endpoint, content type, mutation kind, mutated field path, HTTP status) tuples among the requests that reached a handler (status other than the header / routing refusals); evaluations = HTTP requests judged by the oracle O1-O6 plus pure op lines compared with the model",
 		"distribution":        dist,
 		"distinct_nontrivial": len(rn.distinct),
 		"evaluations":         rn.judged + o.N,
 		"http_requests":       rn.judged,
 		"server_deaths":       rn.deaths,
 		"fuzz_wall_s":         time.Since(t0).Seconds(),
+		"slowest_request":     fmt.Sprintf("%.1fs %s", rn.slowest.Seconds(), rn.slowestReq),
 		"seed":                seed,
 	})
 }
@@ -1068,35 +1096,93 @@ func (rn *runner) replayFor(key string, req request, hline string) []string {
 	return lines
 }
 
-// judge sends one request and applies the oracle. hctx is the `h` line without the status (""
-// when the request is not modelled).
-func (rn *runner) judge(req request, ep, ctype, mutKind, mutPath, key, hline string) int {
+// exchange sends one request. No answer within the client's time-out although the process lives: the machine
+// is shared, a stall of the whole child looks the same as a hung handler. Before that is reported, the server
+// gets a minute to answer a ping and the same request is sent once more with a long time-out: a handler that
+// hangs on a lock hangs again (the caller reports it); a request that is answered now was slow, not lost
+// (retried = true: the first attempt may have been carried out meanwhile, so the answer is not compared with
+// the model). After one confirmed hang later time-outs of the run are reported at once.
+func (rn *runner) exchange(req request) (resp response, retried bool) {
 	c := rn.w.c
-	resp := c.do(req)
-	rn.judged++
-	retried := false
+	t0 := time.Now()
+	resp = c.do(req)
+	if d := time.Since(t0); d > rn.slowest {
+		rn.slowest, rn.slowestReq = d, req.method+" "+req.path+" "+req.ctype+" ("+strconv.Itoa(len(req.body))+" bytes)"
+		if d > 5*time.Second {
+			rn.slowestLine = req.line()
+		}
+	}
 	if resp.err != nil && isTimeout(resp.err) && c.alive() && !rn.hangConfirmed {
-		// No answer within the client's time-out although the process lives. The machine is shared: a stall of
-		// the whole child looks the same as a hung handler. Before this is reported, the server gets a minute to
-		// answer a ping and the same request is sent once more with a long time-out: a handler that hangs on a
-		// lock hangs again (reported as before); a request that is answered now was slow, not lost. The retried
-		// request is not compared with the model (the first attempt may have been carried out meanwhile).
 		rn.statusCt["timeout-first-attempt"]++
 		if c.waitPing(60 * time.Second) {
 			if r2 := c.doWith(slowClient, req); r2.err == nil {
-				resp, retried = r2, true
 				rn.statusCt["answered-on-retry"]++
+				return r2, true
 			}
 		}
-		if !retried {
-			rn.hangConfirmed = true // a real hang: later time-outs of this run are reported at once
+		rn.hangConfirmed = true // a real hang
+	}
+	return resp, false
+}
+
+// noteRejected remembers the first write whose batch failed inside a shard (per collection)
+func (rn *runner) noteRejected(ep, key string, req request, resp response) {
+	if !isPointWrite(ep) || rn.w.rejected[key] != "" || (resp.status >= 300 && resp.status < 500) {
+		return
+	}
+	if s := shardRejected(resp.status, resp.body); s != "" {
+		rn.w.rejected[key] = req.line() + "\t" + s
+		rn.statusCt["write-failed-in-shard"]++
+	}
+}
+
+// noAnswer: the request got no HTTP answer (resp.err != nil, time-outs confirmed by exchange). Either the process
+// died (O1) or it hangs; a hung child is made to print its goroutines (SIGQUIT), the dump is kept in the run
+// directory and a digest goes into the failure. The child is restarted.
+func (rn *runner) noAnswer(req request, ep, key, how string, resp response, replay []string) {
+	c := rn.w.c
+	time.Sleep(50 * time.Millisecond)
+	if !c.alive() {
+		rn.deaths++
+		sig := fmt.Sprintf("process-death:%s:%s", ep, deathSig(c.log.String()))
+		rn.fail(sig, fmt.Sprintf("the server process died while answering %s %s %s: %s", req.method, req.path, how, lastLines(c.log.String(), 3)), replay)
+		rn.statusCt["dead"]++
+		rn.restart()
+		return
+	}
+	// no answer although the process lives: a hang or a closed connection
+	sig := fmt.Sprintf("no-response:%s%s", hugeHeader(req), ep)
+	what := fmt.Sprintf("no HTTP answer for %s %s %s: %v", req.method, req.path, how, resp.err)
+	if isTimeout(resp.err) {
+		rej := rn.w.rejected[key]
+		if gs, name := rn.dumpHang(req); name != "" {
+			what += "\ngoroutine dump of the hung server (SIGQUIT): " + name + " in the run directory; goroutines of the repository's code that wait for another goroutine:\n" + hangDigest(gs)
+			if rej != "" && isPointWrite(ep) && cacheLockLeak(gs) {
+				// the defect recorded under C07, reached over HTTP
+				sig = "hang-after-rejected-write:" + ep
+				r := strings.SplitN(rej, "\t", 2)
+				what = fmt.Sprintf("%s %s hangs for ever: a goroutine waits for the write lock of a shared cache in cache.(*Transaction).With below a shard write, and an earlier write batch to the same collection failed inside the shard (%s). This is the C07 known finding (a refused batch leaves pipeline goroutines running: a shared cache stays write-locked and every later write to that index blocks for ever), reached over HTTP.\n", req.method, req.path, r[1]) + what
+				replay = append([]string{"# the earlier write whose batch failed inside the shard: " + r[0]}, replay...)
+			}
 		}
 	}
+	rn.fail(sig, what, replay)
+	rn.statusCt["no-response"]++
+	rn.restart()
+}
+
+// judge sends one request and applies the oracle. hctx is the `h` line without the status (""
+// when the request is not modelled).
+func (rn *runner) judge(req request, ep, ctype, mutKind, mutPath, key, hline string) int {
+	resp, retried := rn.exchange(req)
+	c := rn.w.c
+	rn.judged++
 	if retried {
 		// judged for "answered" and 5xx only: the first attempt may have been carried out as well, so neither the
 		// model's status nor the state digest of before applies
 		st := resp.status
 		rn.statusCt[strconv.Itoa(st)]++
+		rn.noteRejected(ep, key, req, resp)
 		if st >= 500 && !rn.w.taint[key] {
 			msg := string(resp.body)
 			rn.fail(fmt.Sprintf("5xx:%s:%d:%s", ep, st, errClass(msg)), fmt.Sprintf("%s %s (%s / %s) answered %d %s", req.method, req.path, mutKind, mutPath, st, strings.TrimSpace(msg)), rn.replayFor(key, req, hline))
@@ -1109,21 +1195,10 @@ func (rn *runner) judge(req request, ep, ctype, mutKind, mutPath, key, hline str
 		return st
 	}
 	if resp.err != nil {
-		time.Sleep(50 * time.Millisecond)
-		if !c.alive() {
-			rn.deaths++
-			sig := fmt.Sprintf("process-death:%s:%s", ep, deathSig(c.log.String()))
-			rn.fail(sig, fmt.Sprintf("the server process died while answering %s %s (%s / %s): %s", req.method, req.path, mutKind, mutPath, lastLines(c.log.String(), 3)), rn.replayFor(key, req, hline))
-			rn.statusCt["dead"]++
-			rn.restart()
-			return -1
-		}
-		// no answer although the process lives: a hang or a closed connection
-		rn.fail(fmt.Sprintf("no-response:%s%s", hugeHeader(req), ep), fmt.Sprintf("no HTTP answer for %s %s: %v", req.method, req.path, resp.err), rn.replayFor(key, req, hline))
-		rn.statusCt["no-response"]++
-		rn.restart()
+		rn.noAnswer(req, ep, key, fmt.Sprintf("(%s / %s)", mutKind, mutPath), resp, rn.replayFor(key, req, hline))
 		return -1
 	}
+	rn.noteRejected(ep, key, req, resp)
 	st := resp.status
 	rn.statusCt[strconv.Itoa(st)]++
 	if mutKind != "" {
@@ -1261,6 +1336,7 @@ func (rn *runner) iteration(i int) {
 			up := strings.SplitN(key, "/", 2)
 			rn.w.c.do(request{up[0], rn.specs0(up[0]), "DELETE", "/v2/collections/" + up[1], "", nil})
 			delete(rn.w.hist, key)
+			delete(rn.w.rejected, key)
 			delete(rn.w.known, key)
 			delete(rn.w.taint, key)
 			if !isBase(up[1]) {
@@ -1707,7 +1783,14 @@ func (rn *runner) createBody(api string) *N {
 			if p.metric == "haversine" {
 				p.dim = 2
 			}
-			switch g.r.Intn(6) {
+			switch g.r.Intn(8) {
+			case 3:
+				// a quantizer without a type (the documented schema requires one of none / binary / product): bare,
+				// empty / null type, or with the parameters of a kind
+				p.quant = vh.Pick(g.r, []*N{{K: 'o'}, Obj("type", Str("")), Obj("type", Null()),
+					Obj("binary", Obj("threshold", Flt32(0.5), "triggerThreshold", Int(0), "distanceMetric", Str("hamming"))),
+					Obj("product", Obj("numCentroids", Int(16), "numSubVectors", Int(2), "triggerThreshold", Int(1000))),
+					Obj("type", Str(""), "binary", Obj("threshold", Null(), "triggerThreshold", Int(5), "distanceMetric", Str("jaccard")))}).Clone()
 			case 0:
 				p.quant = Obj("type", Str("none"))
 			case 1:
@@ -1740,6 +1823,7 @@ func (rn *runner) afterWrite(epName, name, api, user, cid, key, ctype string, ra
 		delete(rn.w.taint, user+"/")
 	case "DeleteCol":
 		delete(rn.w.hist, key)
+		delete(rn.w.rejected, key)
 		delete(rn.w.known, key)
 		delete(rn.specs, key)
 		delete(rn.w.taint, key)
@@ -1795,6 +1879,7 @@ func (rn *runner) shrink(user, cid, key, api string) {
 		if isBase(cid) {
 			rn.w.c.do(request{user, rn.specs0(user), "DELETE", "/v2/collections/" + cid, "", nil})
 			delete(rn.w.hist, key)
+			delete(rn.w.rejected, key)
 			delete(rn.w.known, key)
 			rn.refresh()
 		}
